@@ -242,9 +242,33 @@ theorem mv_json_roundtrip_extremes (K : MVCxt) (h : MVOk K) (hb : JsonFloatBorde
 
 /-! ### histories: a context written after any sequence of public mutations is read back as its CURRENT content -/
 
+/-- `K.attribute_names = names` (the setter as repaired by 94822bb): the attribute names AND the names of the
+    pattern structures are `names` afterwards — the invariant `MVOk.names` (pattern structures are named by the
+    attributes, in order) is preserved by the rename instead of being broken by it — and the renamed context
+    round-trips.  What `MVOk.names` still excludes: contexts whose attribute-name list was changed WITHOUT the
+    setter's renaming (item assignment `K.attribute_names[j] = …` on the aliased list, `K.attribute_names = None`),
+    where `ps.name` stays behind; duplicate names (`MVOk.nodup`) as before. -/
+theorem mv_attribute_rename_roundtrip (K : MVCxt) (ns : List Str) (h : MVOk K)
+    (hs : MVStepOk K (.setAttrs ns)) (hcod : MVCodecOk (K.step (.setAttrs ns))) :
+    (K.step (.setAttrs ns)).attrs = ns ∧ (K.step (.setAttrs ns)).cols.map (·.name) = ns ∧
+    (K.step (.setAttrs ns)).cols.map (·.ptype) = K.cols.map (·.ptype) ∧
+    (K.step (.setAttrs ns)).cols.map (·.data) = K.cols.map (·.data) ∧
+    (writeMVTree (K.step (.setAttrs ns))).bind readMVTree = .ok (K.step (.setAttrs ns)) := by
+  have hok := mvok_step K (.setAttrs ns) h hs
+  refine ⟨rfl, hok.names, ?_, ?_, (mv_json_roundtrip _ hok hcod).1⟩
+  · show (if K.cols.length = ns.length then renameCols K.cols ns else K.cols).map (·.ptype) = _
+    split
+    · exact renameCols_map_ptype K.cols ns
+    · rfl
+  · show (if K.cols.length = ns.length then renameCols K.cols ns else K.cols).map (·.data) = _
+    split
+    · exact renameCols_map_data K.cols ns
+    · rfl
+
 /-- after any history of legal public mutations (`ps.data = col`, `ps.data[i] = v`, replacing a pattern structure,
-    `object_names = …`, `description = …`) the many-valued context that is written and read back is the context as
-    it is NOW: the writer depends on nothing but the current content. -/
+    `object_names = …`, `description = …`, and — since the repair 94822bb — `attribute_names = …`, which renames
+    attributes and pattern structures together) the many-valued context that is written and read back is the
+    context as it is NOW: the writer depends on nothing but the current content. -/
 theorem mv_json_roundtrip_history (K : MVCxt) (steps : List MVStep) (h : MVOk K) (hs : MVStepsOk K steps)
     (hcod : MVCodecOk (K.run steps)) :
     (writeMVTree (K.run steps)).bind readMVTree = .ok (K.run steps) :=
@@ -391,8 +415,9 @@ example : IsJsonFloat "Infinity".toList ∧ IsJsonFloat "-Infinity".toList ∧ I
 
 /-- a history: replace a column, then a cell, rename the objects, drop the description -/
 example : MVStepsOk exMV [.setCol 0 [.interval "Infinity".toList "-Infinity".toList, .interval "0.5".toList "0.5".toList],
-    .setCell 1 1 (.set [.str "null".toList]), .setObjs ["a".toList, "b".toList], .setDescr none] := by
-  refine ⟨?_, ?_, ?_, trivial, trivial⟩
+    .setCell 1 1 (.set [.str "null".toList]), .setObjs ["a".toList, "b".toList], .setDescr none,
+    .setAttrs ["p".toList, "num".toList, "∅".toList]] := by
+  refine ⟨?_, ?_, ?_, trivial, ⟨rfl, by decide⟩, trivial⟩
   · intro c hc
     simp only [exMV, List.getElem?_cons_zero, Option.some.injEq] at hc
     subst hc
